@@ -2,6 +2,7 @@ package props
 
 import (
 	"fmt"
+	"github.com/cybergarage/go-redis/redis/glob"
 	"sort"
 	"strings"
 	"sync/atomic"
@@ -429,6 +430,28 @@ func selfTest(args []string) int {
 		m.RUnlock()
 		return "acquired"
 	}, "acquired")
+	// FineLoops: loop iterations of instrumented code become scheduling points (two
+	// compilations of the glob package interleave only then)
+	for _, fine := range []bool{false, true} {
+		x := &sched.Explorer{Bound: 1, FineLoops: fine}
+		x.New = func() *sched.Run {
+			return &sched.Run{
+				Body: func() {
+					for i := 0; i < 2; i++ {
+						vrt.Go("compiler", func() { glob.Compile("a?c") })
+					}
+				},
+				Verdict: func(r *vrt.Result) sched.Verdict { return sched.Verdict{Obs: "ok"} },
+			}
+		}
+		x.Explore()
+		status := "ok"
+		if (fine && x.Stats.Executions < 4) || (!fine && x.Stats.Executions > 3) || x.Stats.Nondeterministic || len(x.Stats.Diverged) > 0 {
+			status = "FAILED"
+			failed++
+		}
+		fmt.Printf("selftest fine-loops=%-15v %s executions=%d\n", fine, status, x.Stats.Executions)
+	}
 	if failed > 0 {
 		fmt.Printf("HARNESS-ERROR selftest: %d scenario(s) failed\n", failed)
 		return 3
